@@ -46,7 +46,11 @@ Definition msg_data (m : snapmsg) : bytes :=
 (* v.len(), counted in Z in one pass (lengths and offsets are binary numbers throughout:
    the extracted model runs on 28800-byte buffers) *)
 Fixpoint lenZ_acc (v : bytes) (acc : Z) : Z :=
-  match v with [] => acc | _ :: v' => lenZ_acc v' (acc + 1) end.
+  match v with
+  | _ :: _ :: _ :: _ :: _ :: _ :: _ :: _ :: v' => lenZ_acc v' (acc + 8)   (* eight at a time *)
+  | _ :: v' => lenZ_acc v' (acc + 1)
+  | [] => acc
+  end.
 Definition lenZ (v : bytes) : Z := lenZ_acc v 0.
 
 (* drop the first n elements, following the binary digits of n (= skipn (Z.to_nat n), lemma skipZ_spec) *)
@@ -202,10 +206,11 @@ Definition snap_store (s2 : receiver) (c : current) (tick dt num_parts part crc 
             then [DifferingAttributes] else [] in
   if pm_contains part (r_parts s2) then (s2, (Err DuplicatePart, ws)) else
   let len := lenZ (r_buf s2) in
+  let en := len + lenZ data in
   if two32 <=? len then (s2, (Panic site_recv_u32, ws)) else
-  if two32 <=? len + lenZ data then (s2, (Panic site_recv_u32, ws)) else
+  if two32 <=? en then (s2, (Panic site_recv_u32, ws)) else
   let s3 := set_buf s2 (r_buf s2 ++ data) in
-  match pm_insert part (len, len + lenZ data) (r_parts s3) with
+  match pm_insert part (len, en) (r_parts s3) with
   | (parts', Some _) => (set_parts s3 parts', (Panic site_recv_insert, ws))
   | (parts', None) =>
     let s4 := set_parts s3 parts' in
